@@ -107,6 +107,11 @@ def check(ctx, rep):
     from .c02 import trans_rule
     P_ = roles.proto(ctx)
     trans_rule(ctx, rep, [c for c in prog.subclasses(fut, strict=True)], P_.dispatch, P_.lock)
+    # a future that moves from "has a delegate" to "is in the poll list" must never be in neither state: a cancel()
+    # arriving then finds nothing to ask and answers True although the cancel function was never consulted (shared
+    # with C08 / C12)
+    from .c08 import register_order_rule
+    register_order_rule(ctx, rep, "R-CANCEL-FWD")
 
     # ------------------------------------------------------------------ R-STOPRETRY (cancel root)
     ps, it = ctx.paths(fut.methods["cancel"], rfut, depth=6, inline=_no_cb_inline, loads=(STOP,))
